@@ -56,12 +56,12 @@ theorem merge_spec (s : List α) (params : List (List α)) : MergeOK s params (m
 the front (`n > 0`) or the back (`n < 0`). -/
 theorem drop_spec (s : List α) (n : Int) : ∃ r, drop s n = .ok r ∧ DropOK s n r := by
   unfold drop abs
-  by_cases hlt : (if n < 0 then -n else n) < (s.length : Int)
+  by_cases hlt : n > -(s.length : Int) ∧ n < (s.length : Int)
   · rw [if_pos hlt]
     by_cases hpos : n > 0
     · rw [if_pos hpos]
       have hn : n = ((n.toNat : Nat) : Int) := by omega
-      have hk : n.toNat < s.length := by split at hlt <;> omega
+      have hk : n.toNat < s.length := by omega
       refine ⟨(s.take s.length).drop n.toNat, ?_, ?_⟩
       · have h := sliceOf_ok s n.toNat s.length (by omega) (Nat.le_refl _)
         rw [← hn] at h
@@ -82,7 +82,7 @@ theorem drop_spec (s : List α) (n : Int) : ∃ r, drop s n = .ok r ∧ DropOK s
         · simp only [List.length_take]; omega
         · subst h; simp
   · rw [if_neg hlt]
-    have hge : s.length ≤ n.natAbs := by split at hlt <;> omega
+    have hge : s.length ≤ n.natAbs := by omega
     refine ⟨[], rfl, ?_, fun _ => List.nil_suffix, fun _ => List.nil_prefix, fun h => ?_⟩
     · simp only [List.length_nil]; omega
     · subst h
